@@ -86,6 +86,28 @@ fn corpus(mask: u16, seed: u64, n: usize) -> Vec<(String, String)> {
         }
         out.push((b.spec.render_def_with("", true), "enabled".to_string()));
     }
+    // invalid requests over the enabled traits: whatever the all-features build refuses, the subset build must refuse too
+    {
+        let trees = check::draw(seed, 0xC18F ^ mask as u64, n / 2 + 10, 420);
+        for t in trees {
+            let dna = t.current();
+            let mut d = Dna::new(&dna);
+            let op = 1 + d.pick(crate::faults::N_OPS);
+            let mut cfg2 = crate::faults::cfg_for(op, &mut d);
+            cfg2.pool.retain(|t| mask & t.bit() != 0);
+            if cfg2.must.iter().any(|t| mask & t.bit() == 0) || cfg2.pool.is_empty() {
+                continue;
+            }
+            let b = gen::build(&mut d, &cfg2);
+            let mut spec = b.spec;
+            if spec.traits.iter().any(|a| mask & a.tr.bit() == 0) {
+                continue;
+            }
+            if crate::faults::apply(op, &mut spec, &mut d).is_some() {
+                out.push((spec.render_def_with("", true), "faulty".to_string()));
+            }
+        }
+    }
     for t in &disabled {
         let form = match t {
             Tr::Into => "Into(u8)".to_string(),
@@ -135,6 +157,15 @@ fn behaviour_half(mask: u16, seed: u64, n: usize) -> Result<(usize, usize), Stri
     let mut enabled_n = 0;
     let mut disabled_n = 0;
     for ((src, kind), line) in reqs.iter().zip(lines) {
+        if kind == "faulty" {
+            enabled_n += 1;
+            let full_ok = engine::expand_src(src).is_ok();
+            let sub_ok = line.starts_with("ok ");
+            if !full_ok && sub_ok {
+                return Err(format!("features [{feats}]: an invalid request that the all-features build refuses is accepted\n{src}"));
+            }
+            continue;
+        }
         if kind == "enabled" {
             enabled_n += 1;
             let full = match engine::expand_src(src) {
